@@ -80,7 +80,7 @@ def reference(lastmap, qi):
     si, a = QUERY[qi]
     return outcome(lambda: KE[P](args).exec_function_in(uid(si, a)))
 
-FAM = [0, 1, 2, True, False, '', 'txt', 0.0]       # override values: ints, equal-valued values of other types, falsy values, text
+FAM = [0, 1, 2, True, False, '', 'txt', 0.0, 0.30000000000000004, 0.3]       # override values: ints, equal-valued values of other types, falsy values, text, two neighbouring doubles
 
 def history2(t1, v1, t2, v2, style, onebatch, q0, q):
     """two writes (possibly to the same cell), optionally in one batch, optionally a query in between; then one query"""
@@ -215,7 +215,7 @@ def run(report, tier, seed):
     report.encoded('Executor.set_cells', 'Executor._set_cells_to_executed_instance', 'Executor.get_cell', 'Executor.set_executed_class', 'handle_cell',
                    'Cell.uid/__hash__/to_dict', 'ExcelInPython.set_arguments', 'ExcelInPython._cell_preprocessor', 'ExcelInPython.exec_function_in')
     report.bound('workbook: 3 sheets (one titled "1" at index 2), 17 cells; 8 override targets (constant, formula, failing formula, blank in range, below / '
-                 'right of used range, other sheet, digit-titled sheet); history2: two writes (second target any of 8, values from an 8-value family incl. '
+                 'right of used range, other sheet, digit-titled sheet); history2: two writes (second target any of 8, values from a 10-value family incl. two neighbouring doubles and '
                  '1/True/0/False/""/0.0/text, numeric and A1+title addressing, same batch or two batches, optional query in between) then a query of any '
                  'of 18 cells; history3: one cell written twice in one batch and once more, all value triples. All enumerated.')
     report.assume('the reference is the workbook re-translated by the real Parser with a placeholder constant at each overridden position and evaluated '
